@@ -13,9 +13,11 @@ from . import models, oracles
 from . import sspor_hist as H
 
 KAPPA_MAX = 1e6
+KAPPA_HARD = 1e11          # beyond this nothing numerical is judged
+BUD = 1e-12                # ≈ 4500 eps: budget per unit of (scale · κ)
 
 
-def gen_model(ctx, rng, bases=None, opts=None, want_tall=True, max_modes=None):
+def gen_model(ctx, rng, bases=None, opts=None, want_tall=True, max_modes=None, force_graded=False):
     """A fitted SSPOR with its configuration. Returns dict or None (fit rejected)."""
     from pysensors.reconstruction import SSPOR
     basis = rng.choice(bases or models.BASIS_KINDS)
@@ -24,10 +26,23 @@ def gen_model(ctx, rng, bases=None, opts=None, want_tall=True, max_modes=None):
     X = np.array([[rng.randint(-6, 6) for _ in range(nf)] for _ in range(ne)], dtype=float)
     # dtypes: training data are often integer arrays (counts, raw images); the Identity basis keeps that dtype
     dt = rng.choice(["float64"] * 6 + ["int64", "int32", "uint8"])
+    graded = False
     if dt == "uint8":
         X = np.abs(X)
+    if force_graded:
+        ne = max(ne, 3)
+        nf = max(nf, ne + 1)
+        X = np.array([[rng.randint(-6, 6) for _ in range(nf)] for _ in range(ne)], dtype=float)
+    if force_graded or (basis != "svd" and ne >= 2 and rng.random() < 0.3):
+        dt = "float64"
     if dt != "float64":
         X = X.astype(dt)
+    elif ne >= 2 and (force_graded or rng.random() < (0.15 if basis == "svd" else 0.75)):
+        # training examples of very different amplitude (still exact: powers of two): ill-conditioned but full-rank sensor
+        # matrices – a least-squares solver must not silently drop the weak directions
+        for i in range(ne):
+            X[i] *= 2.0 ** (-rng.choice([0, 0, 12, 27, 29, 31]) if i else 0)
+        graded = True
     if basis == "identity":
         nm = None if rng.random() < 0.4 else rng.randint(1, ne)
     elif basis == "svd":
@@ -38,7 +53,7 @@ def gen_model(ctx, rng, bases=None, opts=None, want_tall=True, max_modes=None):
         nm = max_modes
     opt_kind = rng.choice(opts or ["qr", "qr", "ccqr", "gqr"])
     opt = H.make_optimizer(opt_kind)
-    desc = {"basis": basis, "n_modes": nm, "opt": opt_kind, "X": X.tolist(), "seed": rng.randint(0, 20), "dtype": dt}
+    desc = {"basis": basis, "n_modes": nm, "opt": opt_kind, "X": X.tolist(), "seed": rng.randint(0, 20), "dtype": dt, "graded_examples": graded}
     if opt_kind == "ccqr" and rng.random() < 0.6:
         costs = np.array([rng.randint(0, 12) / 2 for _ in range(nf)])
         opt = type(opt)(sensor_costs=costs)
